@@ -1171,6 +1171,37 @@ pub fn gen_case(rng: &mut Rng, kind: &str, o: &GenOpts) -> ConcCase {
                 }
             }
         }
+        // class races: mostly free trees, allocations of different classes with and without slots,
+        // class changes and drains - the class of a tree changes between a search's look at it and
+        // the reserve/steal CAS
+        "K8" => {
+            cfg = Config {
+                frames: rng.range(1, 3) * TREE_FRAMES,
+                alloc_all: false,
+                kind: ck,
+                slots: (0..ck.classes()).map(|_| rng.range(1, 2)).collect(),
+            };
+            for _ in 0..rng.below(3) {
+                let (class, slot) = gen_class_slot(rng, &cfg, false);
+                setup.push(Call::Get { target: None, order: *rng.pick(&[0usize, 3, 9]), class, slot });
+            }
+            for p in programs.iter_mut() {
+                for _ in 0..rng.range(2, 4) {
+                    let (class, slot) = gen_class_slot(rng, &cfg, false);
+                    match rng.weighted(&[10, 3, 2, 1]) {
+                        0 => p.push(SOp::Get { order: *rng.pick(&[0usize, 0, 1, 5, 9]), class, slot, target: None }),
+                        1 => p.push(SOp::Reclass {
+                            id: if rng.chance(2, 3) { Some(rng.below(cfg.trees())) } else { None },
+                            mclass: if rng.chance(1, 3) { Some(rng.below(cfg.slots.len()) as u8) } else { None },
+                            mfree: *rng.pick(&[0, 0, 1, TREE_FRAMES]),
+                            class: rng.below(cfg.slots.len()) as u8,
+                        }),
+                        2 => p.push(SOp::Drain),
+                        _ => p.push(SOp::PutHeld { k: rng.below(3), sub: None, class, slot }),
+                    }
+                }
+            }
+        }
         // sync race: the slot's reserved tree has (almost) no local frames left, but frames were
         // freed into its global counter; the owner syncs while others drain / swap / steal the slot
         "K7" => {
